@@ -374,6 +374,27 @@ def _r7(chk: Check) -> None:
                         problems.append('`%s` parses %s, not the text it was given: the rewriting is a layout rule of its own (which characters '
                                         'it treats as line ends, inside strings and comments too)' % (e.text(), show(inp) if inp else 'nothing'))
         chk.require(not problems and n, R7, q, fi.where, '; '.join(sorted(set(problems))[:2]) or '%d call(s) into PLY, each with the text argument itself' % n)
+    # eval may strip trailing layout before parsing - all of it (str.rstrip()): CR is layout only as part of CR LF, so a strip
+    # set that leaves a final '\r' behind turns `1 + 1\r\n` into a lexical error while `1 + 1\n` parses
+    qe = PARSER + '.eval'
+    if qe in F.functions:
+        fie = F.func(qe)
+        selfe = ('param', om.self_param(F, qe))
+        srce = ('param', fie.node.args.args[1].arg)
+        probs, ne = [], 0
+        for p in SymExec(F, fie).run():
+            for e in p.events:
+                f = freeze(e.func) if e.kind == 'call' else None
+                if not (isinstance(f, tuple) and f[:1] == ('attr',) and f[1] == selfe and f[2] == 'parse'):
+                    continue
+                ne += 1
+                kw = dict(freeze(e.kwargs))
+                txt = kw.get('expr', freeze(e.args)[0] if e.args else None)
+                plain_strip = isinstance(txt, tuple) and txt[:1] == ('call',) and txt[2] == ('attr', srce, 'rstrip') and not txt[3] and not txt[4]
+                if txt != srce and not plain_strip:
+                    probs.append('`%s` parses %s, not the text (or the text with all trailing white space stripped)' % (e.text(), show(txt) if txt else 'nothing'))
+        if ne:
+            chk.require(not probs, R7, qe, fie.where, '; '.join(sorted(set(probs))[:2]) or 'parses the text, trailing white space stripped by str.rstrip()')
 
 
 def _regex_alphabet(lm) -> List[str]:
